@@ -50,7 +50,8 @@ THOROUGH_PROBE_VECTORS = 16
 SENTINELS = {"bin:<:c8,u8", "bin:>=:i16,u16", "bin:==:c8,u16", "unary:-:u8", "unary:~:u16", "unary:-:c8",
              "bin:<<:u32,i64", "type-of:<<:i32,u64", "type-of:>>:u16,u32",
              "compound:/=:lhs=u8,rhs=i32", "compound:%=:lhs=i16,rhs=u32", "compound:>>=:lhs=u8,rhs=i32",
-             "compound-mem:<<=:lhs=u16,rhs=i32", "compound:/=:lhs=i32,rhs=u32", "compound:+=:lhs=u8,rhs=i32"}
+             "compound-mem:<<=:lhs=u16,rhs=i32", "compound:/=:lhs=i32,rhs=u32", "compound:+=:lhs=u8,rhs=i32",
+             "literal:i32:2147483648", "literal:i32:4294967296", "literal:u32:4294967295"}
 
 
 # ------------------------------------------------------------------ AST helpers for the systematic probes
@@ -171,12 +172,14 @@ def probes():
                    PROG([FN("f", "u64", [("i", tb)], [ASG({"k": "idx", "a": "ga", "e": V("i")}, L(77)),
                                                        RET({"k": "idx", "a": "ga", "e": B("-", L(3), V("i"))})])],
                         [{"n": "ga", "ty": ta, "len": 4, "init": [10, 20, 30, 40]}]), True)
-    # literal typing by suffix and magnitude
+    # literal typing by suffix and magnitude (6.4.4.1: decimal constants without suffix are int, long, long long)
     for ty, v in (("i32", 2147483647), ("i32", 2147483648), ("i32", 4294967296), ("u32", 4294967295), ("u32", 4294967296),
-                  ("i64", 9223372036854775807), ("u64", 18446744073709551615), ("u32", 0), ("i64", 1), ("u64", 2)):
-        for tb in ("i32", "u32", "i64"):
-            yield ("literal:%s:%d:with=%s" % (ty, v, tb),
-                   PROG([FN("f", "u64", [("a", tb)], [RET(B(">", B("-", L(v, ty), V("a")), L(0)))])]), True)
+                  ("i64", 9223372036854775807), ("u64", 18446744073709551615), ("u32", 0), ("i64", 1), ("u64", 2),
+                  ("i32", 4294967295), ("i32", 9223372036854775807), ("i64", 2147483648), ("u64", 4294967296)):
+        yield ("literal:%s:%d" % (ty, v),
+               PROG([FN("f", "u64", [("a", "i32")], [RET(B("+", type_reveal(L(v, ty)), B("*", V("a"), L(0))))])]), True)
+        yield ("literal-value:%s:%d" % (ty, v),
+               PROG([FN("f", "u64", [("a", "i32")], [RET(B("+", B("/", L(v, ty), L(3)), B("*", V("a"), L(0))))])]), True)
     # switch on every type, default in the middle, fall-through
     for ta in TYPES:
         cases = [{"v": 1, "b": [ASG(V("r"), L(10), "+=")], "brk": False},
@@ -224,8 +227,10 @@ def construct_class(key):
     """The construct class (see absprog.sanitize) that a failing probe key belongs to, or None."""
     parts = key.split(":")
     fam, op = parts[0], parts[1] if len(parts) > 1 else ""
-    if fam in ("compound", "compound-mem"):
+    if fam in ("compound", "compound-mem") or key.startswith("micro:compound"):
         return "compound"
+    if key == "micro:dowhile-continue":
+        return "dowhile"
     if fam == "unary" or (fam == "type-of" and op.startswith("unary")):
         return "unary"
     if fam in ("bin", "type-of"):
@@ -652,9 +657,16 @@ def model_check(ctx):
     cases = micro_cases()
     path = ctx.trace_file(cases, "micro.json")
     nv = 13 if ctx.tier == "thorough" else 7
-    res = ctx.tlc("Src_MC", MC_CFG % nv, label="Src_MC laws + micro programs", env={"TRACE_FILE": path}, continue_=True,
-                  workers=WORKERS, coverage=False)
+    obsdir = tempfile.mkdtemp(prefix="mcobs_", dir=ctx.workdir)
+    res = ctx.tlc("Src_MC", MC_CFG % nv, label="Src_MC laws + micro programs", env={"TRACE_FILE": path, "OBS_DIR": obsdir},
+                  continue_=True, workers=WORKERS, coverage=False)
     os.unlink(path)
+    covered = {}
+    for fn in os.listdir(obsdir):
+        with open(os.path.join(obsdir, fn)) as fh:
+            for a in json.load(fh)["acts"]:
+                covered[a] = covered.get(a, 0) + 1
+    shutil.rmtree(obsdir, ignore_errors=True)
     if res.errors:
         msgs = []
         for e in res.errors[:6]:
@@ -665,6 +677,11 @@ def model_check(ctx):
                 {k: str(v)[:300] for k, v in st.items() if k in ("i", "av", "lw", "status", "why", "ret", "calls", "glob")},
                 e.text[:300] if e.kind == "eval" else ""))
         raise MachineryError("Src.tla fails its own model check:\n" + "\n".join(msgs))
+    missing = [a for a in SRC_ACTIONS if a not in covered]
+    if missing:
+        raise MachineryError("Src_MC micro programs do not take the actions %s" % missing)
+    for a, n in covered.items():
+        ctx.cov["actions"]["Src_MC." + a] = n
     ctx.cov["mc_micro_programs"] = len(cases)
     ctx.cov["mc_micro_runs"] = sum(len(c["argv"]) for c in cases)
     ctx.cov["mc_law_instances"] = 64 * nv * nv
@@ -676,14 +693,16 @@ class Engine:
 
     def run(self, ctx):
         thorough = ctx.tier == "thorough"
-        ctx.rule("(a) systematic probes: one micro program per construct x integer type combination (binary operators, "
-                 "compound assignment on locals and array elements, ++/--, unary operators, casts, conversion on return / "
-                 "initialisation / argument passing / store, ?:, p[i] and a[i] with every index type, literal typing, "
-                 "switch on every type, struct layouts) on boundary-value argument vectors; (b) random programs of "
-                 "harness/absprog.py (functions, loops, switch, arrays, structs, pointers into arrays, calls, external calls) "
-                 "on 6-10 argument vectors.  Each (program, vector) is executed by TLC under Src.tla; those ending 'ok' are "
-                 "compared by TLC with the execution of ppci's IR under IR.tla.  distinct = distinct (program, vector) pairs "
-                 "compared (Src status ok); undefined / implementation-defined / unspecified-order executions are skipped and counted")
+        ctx.rule("stage 1, systematic probes: one micro program per construct x integer type combination (18 binary operators and the "
+                 "type of their result, 10 compound assignments on locals and on array elements, ++/--, unary operators, casts, "
+                 "conversion on return / initialisation / argument passing / store, ?:, p[i] and a[i] with every index type, literal "
+                 "typing, switch on every type, struct layouts) on boundary-value argument vectors (quick: the sentinel probes + a seeded "
+                 "sample of 400 of the 4266 probes, 4 vectors each; thorough: all probes, 16 vectors each).  Stage 2, random programs of "
+                 "harness/absprog.py (functions, loops, switch, arrays, structs, pointers into arrays, calls, external calls; 40 x 6 "
+                 "vectors quick, 300 x 8 thorough), generated without the construct classes whose probes failed in stage 1.  Every "
+                 "(program, vector) is executed by TLC under Src.tla; those ending 'ok' are compared by TLC with the execution of ppci's "
+                 "IR under IR.tla (Src_IR.tla).  distinct = distinct (program, vector) pairs compared; undefined / implementation-defined / "
+                 "unspecified-order executions are skipped and counted in src_status")
         ctx.assume("harness/absprog.py render_c prints the abstract program faithfully as C; to_src re-encodes it for TLC without interpretation")
         ctx.assume("harness/project_ir.py reports the IR module faithfully; IR.tla is the meaning of ppci IR (as for C02)")
         ctx.assume("Src.tla is the C abstract machine for the LP64 data model of ppci's x86_64 target (cross-validated against gcc -fsanitize=undefined)")
